@@ -6,10 +6,10 @@ import PsdVerif.Lemmas.TreeStep
 
 namespace PsdVerif.Tree
 
-theorem then_append_adds (cfg : Cfg) (s : State) (r1 : State × Out) (g x : Id) (o : Out) (h1 : Adds s r1.1 [x]) :
+theorem then_append_adds (cfg : Cfg) (s : State) (r1 : State × Out) (g x : Id) (o : Out) (h1 : Adds s r1.1 g [x]) :
     Adds s (if r1.2.isError = true then r1
       else if (opAppend cfg r1.1 g x).2.isError = true then opAppend cfg r1.1 g x
-      else ((opAppend cfg r1.1 g x).1, o)).1 [x] := by
+      else ((opAppend cfg r1.1 g x).1, o)).1 g [x] := by
   split
   · exact h1
   · split
@@ -26,28 +26,28 @@ theorem then_append_frame (cfg : Cfg) (s : State) (r1 : State × Out) (g x : Id)
     · exact h1.trans (opAppend_frame cfg _ g x)
     · exact h1.trans (opAppend_frame cfg _ g x)
 
-theorem opMoveToGroup_adds (cfg : Cfg) (s : State) (x g : Id) : Adds s (opMoveToGroup cfg s x g).1 [x] := by
+theorem opMoveToGroup_adds (cfg : Cfg) (s : State) (x g : Id) : Adds s (opMoveToGroup cfg s x g).1 g [x] := by
   unfold opMoveToGroup
   split
-  · exact Adds.refl s _
+  · exact Adds.refl s _ _
   · split
-    · exact Adds.refl s _
+    · exact Adds.refl s _ _
     · split
-      · exact Adds.refl s _
+      · exact Adds.refl s _ _
       · split
-        · exact Adds.refl s _
+        · exact Adds.refl s _ _
         · split
-          · exact Adds.of_same (refuse_same s _) _
+          · exact Adds.of_same (refuse_same s _) _ _
           · simp only
             cases hp : s.parent x with
-            | none => exact then_append_adds cfg s (s, Out.none) g x _ (Adds.refl s _)
+            | none => exact then_append_adds cfg s (s, Out.none) g x _ (Adds.refl s _ _)
             | some p =>
               simp only
               by_cases hcp : s.cont p = true
               · simp only [hcp, if_true]
-                exact then_append_adds cfg s (detach cfg s x p) g x _ (detach_adds cfg s x p [x])
+                exact then_append_adds cfg s (detach cfg s x p) g x _ (detach_adds cfg s x p g [x])
               · simp only [hcp]
-                exact then_append_adds cfg s (s, Out.none) g x _ (Adds.refl s _)
+                exact then_append_adds cfg s (s, Out.none) g x _ (Adds.refl s _ _)
 
 theorem opMoveToGroup_frame (cfg : Cfg) (s : State) (x g : Id) : KindFrame s (opMoveToGroup cfg s x g).1 := by
   unfold opMoveToGroup
@@ -72,22 +72,22 @@ theorem opMoveToGroup_frame (cfg : Cfg) (s : State) (x g : Id) : KindFrame s (op
               · simp only [hcp]
                 exact then_append_frame cfg s (s, Out.none) g x _ (KindFrame.refl s)
 
-theorem moveAll_adds (cfg : Cfg) (n : Id) (s : State) (xs : List Id) : Adds s (moveAll cfg n s xs).1 xs := by
+theorem moveAll_adds (cfg : Cfg) (n : Id) (s : State) (xs : List Id) : Adds s (moveAll cfg n s xs).1 n xs := by
   induction xs generalizing s with
-  | nil => exact Adds.refl s _
+  | nil => exact Adds.refl s _ _
   | cons x xs ih =>
     simp only [moveAll]
-    have h1 : Adds s (opMoveToGroup cfg s x n).1 (x :: xs) := by
+    have h1 : Adds s (opMoveToGroup cfg s x n).1 n (x :: xs) := by
       intro c y hy
       rcases opMoveToGroup_adds cfg s x n c y hy with h | h
       · exact .inl h
-      · exact .inr (List.mem_cons.mpr (.inl (List.mem_singleton.mp h)))
+      · exact .inr ⟨h.1, List.mem_cons.mpr (.inl (List.mem_singleton.mp h.2))⟩
     split
     · exact h1
     · intro c y hy
       rcases ih (opMoveToGroup cfg s x n).1 c y hy with h | h
       · exact h1 c y h
-      · exact .inr (List.mem_cons_of_mem _ h)
+      · exact .inr ⟨h.1, List.mem_cons_of_mem _ h.2⟩
 
 theorem moveAll_frame (cfg : Cfg) (n : Id) (s : State) (xs : List Id) : KindFrame s (moveAll cfg n s xs).1 := by
   induction xs generalizing s with
@@ -166,18 +166,25 @@ theorem inv_glBody {cfg : Cfg} {s : State} (i : Inv s) (hself : cfg.itemSelfChec
       intro c hc
       rcases moveAll_adds cfg s.next _ xs c _ hc with h | h
       · exact alloc_detached i .group none BBox.zero c h
-      · exact Nat.lt_irrefl _ (isLayer_iff.mp (hall _ h)).1
+      · exact Nat.lt_irrefl _ (isLayer_iff.mp (hall _ h.2)).1
     cases par with
     | none => exact i2
     | some q =>
       simp only at hne ⊢
-      by_cases hq : (moveAll cfg s.next (alloc s .group none BBox.zero) xs).1.isGroup q = true
+      by_cases hq : s.isGroup q = true
       · rw [if_pos hq] at hne ⊢
+        have hq' : (moveAll cfg s.next (alloc s .group none BBox.zero) xs).1.isGroup q = true := by
+          rw [(moveAll_frame cfg s.next _ xs).isGroup]
+          have := isGroup_iff.mp hq
+          apply isGroup_iff.mpr
+          refine ⟨Nat.lt_succ_of_lt this.1, ?_⟩
+          have hne' : q ≠ s.next := Nat.ne_of_lt this.1
+          simpa [alloc, State.cont, upd, hne'] using this.2
         by_cases h2 : (opAppend cfg (moveAll cfg s.next (alloc s .group none BBox.zero) xs).1 q s.next).2.isError = true
         · rw [if_pos h2] at hne ⊢
-          exact inv_opAppend i2 hself q _ hq hdet hne
+          exact inv_opAppend i2 hself q _ hq' hdet hne
         · rw [if_neg h2]
-          exact inv_opAppend i2 hself q _ hq hdet (ne_rec_of_not_isError h2)
+          exact inv_opAppend i2 hself q _ hq' hdet (ne_rec_of_not_isError h2)
       · rw [if_neg hq]
         exact i2
 
